@@ -62,6 +62,10 @@ EXPRS = [
     ('+p:^(packages,classes)*', None, ['Method'], [1, 2]),
     ('^packages*.(classes,packages)', None, ['Class'], [1, 2]),
     ('..~extends.methods,..methods', 'Method', ['Method'], [1]),
+    # dots steps that need more ancestors than some start objects have
+    ('....packages', 'Package', ['Class', 'Method'], [1]),
+    ('.....packages.classes,..classes', 'Class', ['Class', 'Method'], [1, 2]),
+    ('+p:....classes,...classes', 'Class', ['Method'], [1]),
 ]
 
 
